@@ -1361,8 +1361,12 @@ func (c *Context) Reduce(d, x *Decimal) (int, Condition, error) {
 	_, n := d.Reduce(x)
 	d.Negative = neg
 	res := c.round(d, d)
+	// Rounding can produce new trailing zeros (9.95 -> 10 at two digits),
+	// which must be removed as well.
+	_, n2 := d.Reduce(d)
+	d.Negative = neg
 	res, err := c.goError(res)
-	return n, res, err
+	return n + n2, res, err
 }
 
 // exp10 returns x, 10^x. An error is returned if x is too large.
